@@ -44,6 +44,7 @@ type arrival struct {
 	kind    string // inv | tx
 	ready   bool   // node reported in sync when it was delivered
 	nodeGen int
+	listened bool // the connection it arrived on was being listened to (untrusted: verified)
 }
 
 func (w *World) SetupTxUniverse() {
@@ -127,8 +128,12 @@ func (w *World) noteArrival(name, src, kind string) {
 	if src == "U1" || src == "U2" {
 		ready = ready && w.untrustedVerified(w.connOf(src).addr)
 	}
+	listened := ready
+	if src == "U1" || src == "U2" {
+		listened = w.untrustedVerified(w.connOf(src).addr) // an untrusted connection is listened to once it is verified, whatever the trusted sync state
+	}
 	w.arrivals[name] = append(w.arrivals[name], arrival{at: w.S.Now, src: src, kind: kind,
-		ready: ready, nodeGen: w.nodeGen})
+		ready: ready, listened: listened, nodeGen: w.nodeGen})
 }
 
 // untrustedVerified asks the node (private state, by reflection) whether the connection to addr
@@ -995,9 +1000,9 @@ func (w *World) oracleRequests() {
 					fmt.Sprintf("tx %s requested from %s at %d ms and from %s at %d ms", n, rs[i-1].src, rs[i-1].at/1e6, rs[i].src, rs[i].at/1e6))
 			}
 		}
-		if fb, ok := w.firstBody(n); ok && fb.ready {
+		if fb, ok := w.firstListenedBody(n); ok {
 			for _, r := range rs {
-				if r.at > fb.at+w.slack && !w.restartBetween(fb.at, r.at) && w.stayedReady(fb.at) && !w.confirmedBetween(n, fb.at, r.at) {
+				if r.at > fb.at+w.slack && !w.restartBetween(fb.at, r.at) && (w.stayedReady(fb.at) || !fb.ready) && !w.reconnectBetween(fb.at, r.at) && !w.confirmedBetween(n, fb.at, r.at) {
 					w.fail("C14", "no-request-after-body", "requested after the body arrived", fmt.Sprintf("tx %s body arrived at %d ms, requested again from %s at %d ms", n, fb.at/1e6, r.src, r.at/1e6))
 				}
 			}
@@ -1230,6 +1235,27 @@ func (w *World) crashLostTracking(a, b int64) bool {
 			}
 		}
 		if !persisted {
+			return true
+		}
+	}
+	return false
+}
+
+// firstListenedBody: the first arrival of the tx body on a connection the node was listening to.
+func (w *World) firstListenedBody(name string) (arrival, bool) {
+	for _, a := range w.arrivals[name] {
+		if a.kind == "tx" && (a.ready || a.listened) {
+			return a, true
+		}
+	}
+	return arrival{}, false
+}
+
+// reconnectBetween: the trusted connection was lost and re-established in (a, b] (the state, incl. what
+// trusted tx bodies are accepted, is reset then).
+func (w *World) reconnectBetween(a, b int64) bool {
+	for _, t := range w.restarts {
+		if t > a && t <= b {
 			return true
 		}
 	}
